@@ -1752,7 +1752,12 @@ impl RdfExpressionPredicate {
             FilterExpression::Literal(v) => Some(v.clone()),
             FilterExpression::Variable(name) => {
                 let col_idx = *self.variable_columns.get(name)?;
-                chunk.column(col_idx)?.get_value(row)
+                // An unbound variable (NULL, e.g. from an unmatched OPTIONAL) is an error in
+                // SPARQL expressions, not a value: BOUND(?x) is false, ?x != c is not true
+                chunk
+                    .column(col_idx)?
+                    .get_value(row)
+                    .filter(|v| !matches!(v, Value::Null))
             }
             FilterExpression::Property { variable, .. } => {
                 // For RDF, treat property access as variable access
